@@ -39,12 +39,33 @@ class CallTimeout(Exception):
     pass
 
 
+_LOAD = {"t": 0.0, "f": 1.0}
+
+
+def load_factor():
+    """how much slower than nominal this process currently runs (oversubscribed machine): a fixed micro-workload of small numpy
+    operations, nominally 12 ms, is timed at most every 15 s; horizons are stretched by the factor so that a loaded machine
+    cannot turn a slow but terminating call into a 'non-termination' observation"""
+    now = time.time()
+    if now - _LOAD["t"] > 15.0:
+        import numpy as np
+        a = np.arange(8.0)
+        t0 = time.perf_counter()
+        for _ in range(6000):
+            a = a * 1.0000001 + 0.5
+            a[1:] - a[:-1]
+        dt = time.perf_counter() - t0
+        _LOAD["f"] = max(1.0, dt / 0.012)
+        _LOAD["t"] = time.time()
+    return _LOAD["f"]
+
+
 class time_limit:
     """bounded horizon for one call into the code under test: a driver loop that never meets its stop criterion must
     become an observation (exception), not a hung explorer.  Uses ITIMER_REAL, valid in the main thread of each worker."""
 
     def __init__(self, seconds):
-        self.seconds = seconds
+        self.seconds = seconds * load_factor()
 
     def _raise(self, *a):
         raise CallTimeout("call did not return within %gs" % self.seconds)
